@@ -27,9 +27,7 @@ def counter_sequential(start: int, o1: int, o2: int, n: int) -> bool:
     post: _
     """
     # ids issued one after the other are pairwise distinct, stay inside 32 bit, and wrap around at 2^32
-    class P:
-        get_next_system_counter = Protocol.get_next_system_counter
-    p = P()
+    p, c, delivered = rig.make_protocol()           # a real protocol object (whatever attributes the method needs exist)
     p._system_counter = start
     ids = [p.get_next_system_counter() for _ in range(n)]
     for i, x in enumerate(ids):
@@ -200,15 +198,9 @@ def counter_schedules():
     if r["result"] != "sat":
         return {"state": "unknown", "extra": extra}
 
-    class P:
-        pass
-
     def mk():
-        import threading as _t
-        p = P()
+        p, c, delivered = rig.make_protocol(symbolic_tables=False)
         p._system_counter = r["start"]["_system_counter"]
-        for lk in locks:
-            setattr(p, lk, _t.Lock())
         return p
     got = ilv.replay(fn, mk, r["schedule"], 2)
     rep = got[0] is not None and got[0] == got[1]
